@@ -87,6 +87,23 @@ fn kij_event(tr: &mut Tr, a: &[String], b: &[String]) {
     tr.ev(json!({"ev":"SegKij","a":a,"b":b,"table":table_json(),"kab":kab_json(),"res":res}));
 }
 
+/// Three or four molecules at once: every pair of the binary matrix is the average over its own segment pairs (and nothing else)
+fn kij_multi_event(tr: &mut Tr, mols: &[Vec<String>]) {
+    let r = guarded(std::panic::AssertUnwindSafe(|| {
+        PcSaftParameters::from_segments(mols.iter().enumerate().map(|(i, m)| chem(&format!("c{}", i), m, None)).collect(), homo_segments(), Some(kab_records()))
+    }));
+    let n = mols.len();
+    let res = match r {
+        Ok(Ok(p)) => {
+            let k: Vec<Vec<Value>> = (0..n).map(|i| (0..n).map(|j| fs(p.records().1.map(|m| serde_json::to_value(&m[(i, j)]).unwrap()["k_ij"].as_f64().unwrap_or(0.0)).unwrap_or(0.0))).collect()).collect();
+            json!({"ok": true, "k": k})
+        }
+        Ok(Err(e)) => json!({"ok": false, "err": perr(&e)}),
+        Err(m) => json!({"ok": false, "err": format!("Panic:{}", m)}),
+    };
+    tr.ev(json!({"ev":"SegKijN","mols":mols,"table":table_json(),"kab":kab_json(),"res":res}));
+}
+
 fn type_of_sigma(s: f64) -> &'static str {
     TABLE.iter().find(|t| (t.2 - s).abs() < 1e-12).map(|t| t.0).unwrap_or("?")
 }
@@ -128,6 +145,15 @@ pub fn run(tr: &mut Tr, args: &Args, rng: &mut Rng) {
         let a = rng.pick(&seqs).clone();
         let b = rng.pick(&seqs).clone();
         kij_event(tr, &a, &b);
+    }
+    let ok_seqs: Vec<Vec<String>> = seqs.iter().filter(|q| guarded(std::panic::AssertUnwindSafe(|| PcSaftParameters::from_segments(vec![chem("x", q, None)], homo_segments(), None))).map(|r| r.is_ok()).unwrap_or(false)).cloned().collect();
+    let nmulti = if args.thorough { 1500 } else { 150 };
+    for _ in 0..nmulti {
+        let n = 3 + rng.below(2);
+        // mostly molecules that can be built on their own (at most one polar / associating segment), so that the averages are actually judged
+        let pool = if rng.below(5) == 0 || ok_seqs.is_empty() { &seqs } else { &ok_seqs };
+        let mols: Vec<Vec<String>> = (0..n).map(|_| rng.pick(pool).clone()).collect();
+        kij_multi_event(tr, &mols);
     }
     // longer random molecules (up to 8 segments) in shuffled orders, with explicit random tree-like bond lists
     let nlong = if args.thorough { 1500 } else { 150 };
